@@ -9,9 +9,9 @@ Open Scope N_scope.
 
 Lemma extract_bit_spec w p : extract_bit w p = extract_bits w p p.
 Proof.
-  rewrite extract_bits_spec by lia. unfold extract_bit.
+  rewrite extract_bits_spec by flia. unfold extract_bit.
   rewrite N.shiftr_div_pow2. change 1 with (N.ones 1) at 1. rewrite N.land_ones.
-  replace (p - p + 1) with 1 by lia. reflexivity.
+  replace (p - p + 1) with 1 by flia. reflexivity.
 Qed.
 
 Lemma ds_offsets_same op : ds_two_offsets op = ds_dual_offset op.
@@ -35,8 +35,8 @@ Proof.
   - intros w E; inversion E. exact (pack_bound gs Hgk).
   - intros len w1 Hlen Hw1. rewrite (Hw1 _ eq_refl). clear Hw1.
     rewrite (core_of_row c len (pack fs) (pack gs) r DS 26 54 Hr eq_refl).
-    + cbn [dispatch]. unfold decode_ds, read_hi.
-      destruct (N.ltb_spec len 8); [lia|]. cbn [bind]. cbv zeta. rewrite extract_bit_spec.
+    + cbn [dispatch]. unfold decode_ds, decode_ds_body, read_hi.
+      destruct (N.ltb_spec len 8); [flia|]. cbn [bind]. cbv zeta. rewrite extract_bit_spec.
       xfield Hok. xfield Hgk.
       change (i_row (inst0 (fmt_format DS) r)) with r.
       rewrite nz_b2n, ds_offsets_same, N.shiftl_mul_pow2, (N.mul_comm offset1). pow2.
@@ -45,8 +45,8 @@ Proof.
     + rewrite (drop_div fs Hok 26 _ eq_refl). reflexivity.
     + opc DS 17 24 Hok.
     + opc DS 17 24 Hok.
-    + change (f_size (fmt_format DS)) with 8. lia.
-    + lia.
+    + change (f_size (fmt_format DS)) with 8. flia.
+    + flia.
   - unfold spec_inst, base_inst, dsize. cbn [d_row words snd]. reflexivity.
 Qed.
 
@@ -81,8 +81,8 @@ Proof.
   - intros w E; inversion E. exact (pack_bound gs Hgk).
   - intros len w1 Hlen Hw1. rewrite (Hw1 _ eq_refl). clear Hw1.
     rewrite (core_of_row c len (pack fs) (pack gs) r FLAT 26 55 Hr eq_refl).
-    + cbn [dispatch]. unfold decode_flat, read_hi.
-      destruct (N.ltb_spec len 8); [lia|]. cbn [bind]. cbv zeta.
+    + cbn [dispatch]. unfold decode_flat, decode_flat_body, read_hi.
+      destruct (N.ltb_spec len 8); [flia|]. cbn [bind]. cbv zeta.
       xfield Hok. xfield Hgk.
       change (i_row (inst0 (fmt_format FLAT) r)) with r.
       rewrite !nz_b2n, flat_offset_spec by assumption.
@@ -92,8 +92,8 @@ Proof.
     + rewrite (drop_div fs Hok 26 _ eq_refl). reflexivity.
     + opc FLAT 18 24 Hok.
     + opc FLAT 18 24 Hok.
-    + change (f_size (fmt_format FLAT)) with 8. lia.
-    + lia.
+    + change (f_size (fmt_format FLAT)) with 8. flia.
+    + flia.
   - unfold spec_inst, base_inst, dsize. cbn [d_row words snd]. reflexivity.
 Qed.
 
@@ -137,8 +137,8 @@ Proof.
   - intros w E; inversion E. exact (pack_bound gs Hgk).
   - intros len w1 Hlen Hw1. rewrite (Hw1 _ eq_refl). clear Hw1.
     rewrite (core_of_row c len (pack fs) (pack gs) r VOP3b 26 52 Hr eq_refl).
-    + cbn [dispatch]. unfold decode_vop3b, read_hi.
-      destruct (N.ltb_spec len 8); [lia|]. cbn [bind]. cbv zeta.
+    + cbn [dispatch]. unfold decode_vop3b, decode_vop3b_body, read_hi.
+      destruct (N.ltb_spec len 8); [flia|]. cbn [bind]. cbv zeta.
       xfield Hok. xfield Hgk.
       change (i_row (inst0 (fmt_format VOP3b) r)) with r.
       rewrite <- (code_sdst_opnd sdst) at 1. rewrite (getop_code _ Hsd1). cbn [bind].
@@ -152,22 +152,22 @@ Proof.
     + rewrite (drop_div fs Hok 26 _ eq_refl). reflexivity.
     + opc VOP3a 16 25 Hok.
     + opc VOP3b 16 25 Hok.
-    + change (f_size (fmt_format VOP3b)) with 8. lia.
-    + lia.
+    + change (f_size (fmt_format VOP3b)) with 8. flia.
+    + flia.
   - unfold spec_inst, base_inst, dsize. cbn [d_row words snd]. reflexivity.
 Qed.
 
 Lemma bit_tests x : x < 8 ->
   nz (N.land x 1) = N.testbit x 0 /\ nz (N.land x 2) = N.testbit x 1 /\ nz (N.land x 4) = N.testbit x 2.
 Proof.
-  intros H. assert (x = 0 \/ x = 1 \/ x = 2 \/ x = 3 \/ x = 4 \/ x = 5 \/ x = 6 \/ x = 7) as E by lia.
+  intros H. assert (x = 0 \/ x = 1 \/ x = 2 \/ x = 3 \/ x = 4 \/ x = 5 \/ x = 6 \/ x = 7) as E by flia.
   destruct E as [->|[->|[->|[->|[->|[->|[->| ->]]]]]]]; repeat split; reflexivity.
 Qed.
 
 Lemma lor_shift2 a b : a < 4 -> b < 2 -> N.lor a (N.shiftl b 2) = a + 4 * b.
 Proof.
-  intros Ha Hb. assert (a = 0 \/ a = 1 \/ a = 2 \/ a = 3) as Ea by lia.
-  assert (b = 0 \/ b = 1) as Eb by lia.
+  intros Ha Hb. assert (a = 0 \/ a = 1 \/ a = 2 \/ a = 3) as Ea by flia.
+  assert (b = 0 \/ b = 1) as Eb by flia.
   destruct Ea as [->|[->|[->| ->]]], Eb as [->| ->]; reflexivity.
 Qed.
 
@@ -182,7 +182,10 @@ Proof.
   pose proof (row_opcode_bound VOP3a r 10 Hr eq_refl) as Hop.
   pose proof (opnd_code_bound s0 Ha) as Hab0. pose proof (opnd_code_bound s1 Hb) as Hbb.
   pose proof (opnd_code_bound s2 Hc) as Hcb.
-  assert (Hvb : vdst <= 255) by (destruct (r_opcode r <=? 255); lia).
+  assert (Hvb : vdst <= 255) by (destruct (r_opcode r <=? 255); flia).
+  assert (Ho8 : opsel / 8 < 2) by (apply N.div_lt_upper_bound; flia).
+  assert (Hhi : (opsel / 2 ^ (14 - 11)) mod 2 ^ (14 - 14 + 1) = opsel / 8).
+  { pow2. apply N.mod_small. exact Ho8. }
   set (fs := [(vdst, 8); (abs, 3); (opsel, 4); (b2n clamp, 1); (r_opcode r, 10); (52, 6)]).
   set (gs := [(code_of s0, 9); (code_of s1, 9); (code_of s2, 9); (omod, 2); (neg, 3)]).
   assert (Hok : fields_ok fs) by (unfold fs; destruct clamp; fok).
@@ -192,8 +195,8 @@ Proof.
   - intros w E; inversion E. exact (pack_bound gs Hgk).
   - intros len w1 Hlen Hw1. rewrite (Hw1 _ eq_refl). clear Hw1.
     rewrite (core_of_row c len (pack fs) (pack gs) r VOP3a 26 52 Hr eq_refl).
-    + cbn [dispatch]. unfold decode_vop3a, read_hi.
-      destruct (N.ltb_spec len 8); [lia|]. cbn [bind]. cbv zeta.
+    + cbn [dispatch]. unfold decode_vop3a, decode_vop3a_body, read_hi.
+      destruct (N.ltb_spec len 8); [flia|]. cbn [bind]. cbv zeta.
       xfield Hok. xfield Hgk. xsub Hok.
       change (i_row (inst0 (fmt_format VOP3a) r)) with r.
       assert (Hd : (if r_opcode r <=? 255 then getop vdst else ROk (new_vreg vdst vdst 0))
@@ -208,8 +211,6 @@ Proof.
       destruct (bit_tests abs Hab) as (A0 & A1 & A2). rewrite A0, A1, A2.
       destruct (bit_tests neg Hng) as (N0' & N1' & N2'). rewrite N0', N1', N2'.
       rewrite nz_b2n.
-      assert (Hhi : (opsel / 2 ^ (14 - 11)) mod 2 ^ (14 - 14 + 1) = opsel / 8).
-      { pow2. apply N.mod_small. apply N.div_lt_upper_bound; lia. }
       unfold spec_inst, base_inst, dsize. cbn [d_row words snd]. rowfmt Hr.
       destruct (r_src2w r =? 0); cbn [negb]; rewrite ?G2; cbn [bind]; rewrite ?C2;
         destruct (r_opcode r <=? 255); rewrite ?cnt64_spec, ?cnt64_vgpr0;
@@ -217,13 +218,13 @@ Proof.
                                          destruct ((945 <=? r_opcode r) && (r_opcode r <=? 946)) | |
                                          destruct ((945 <=? r_opcode r) && (r_opcode r <=? 946)) | |
                                          destruct ((945 <=? r_opcode r) && (r_opcode r <=? 946))];
-        rewrite ?Hhi, ?lor_shift2 by (try assumption; apply N.div_lt_upper_bound; lia);
+        rewrite ?Hhi, ?lor_shift2 by assumption;
         pow2; rewrite ?N.div_1_r; reflexivity.
     + rewrite (drop_div fs Hok 26 _ eq_refl). reflexivity.
     + opc VOP3a 16 25 Hok.
     + opc VOP3a 16 25 Hok.
-    + change (f_size (fmt_format VOP3a)) with 8. lia.
-    + lia.
+    + change (f_size (fmt_format VOP3a)) with 8. flia.
+    + flia.
   - unfold spec_inst, base_inst, dsize. cbn [d_row words snd].
     destruct (r_opcode r =? 944); [|destruct ((945 <=? r_opcode r) && (r_opcode r <=? 946))]; reflexivity.
 Qed.
